@@ -249,6 +249,14 @@ def handle1 (args : List String) : String :=
   | "slicesplit" :: a =>
     let p : More.SliceSplit := { xShape := getShape a "x", axes0 := getOptInts a "a0", axes1 := getOptInts a "a1", begin0 := getOptInts a "b0", end0 := getOptInts a "e0", begin1 := getOptInts a "b1", end1 := getOptInts a "e1", opsetGe18 := getS a "lt18" != "1" }
     fireIf (More.sliceSplitFires p.check (getBool a "hifirst")) true
+  | "norm" :: a =>
+    let kind : More.NormKind := match getS a "kind" with | "ln" => .layerNorm | "lnbias" => .layerNormBias | _ => .rmsNorm
+    let on (k : String) : Option Nat := (getOptInt a k).map Int.toNat
+    let p : More.NormFusion := { kind := kind, xDtype := on "x", scaleDtype := on "sc", epsSingleton := getBool a "eps1", epsIsFloat := getS a "epsf" != "0", computeDtype := on "cd", xRank := getNat a "xr", otherRank := getNat a "or", opset := getNat a "opset" }
+    (match p.run with
+     | .fire r => s!"fire stash={match r.stashType with | some t => toString t | none => "-"} hyp={b2s p.hyp}"
+     | .raises => "raise"
+     | .nofire => "nofire")
   | "ccos" :: a =>
     (match More.castConstantOfShapeRun (getNat a "to") (parseRat (getS a "val")) with
      | .fire t => s!"fire to={t} hyp=1"
@@ -259,7 +267,7 @@ def handle1 (args : List String) : String :=
 /-- Rules with `remove_nodes=True` whose pattern has an inner node: the matcher (`_valid_to_replace`) rejects the
 match when an inner value is a graph output or has a consumer outside the match — before `check()` runs. -/
 def multiNodeRemoving : List String :=
-  ["clipclip", "cliprelu", "reluclip", "relurelu", "minmax", "castcast", "transtrans", "unsq", "reshape2", "gemm", "bn", "mmreshape", "gemm2mm", "hardsig", "hsw2", "convaffine", "ccos"]
+  ["clipclip", "cliprelu", "reluclip", "relurelu", "minmax", "castcast", "transtrans", "unsq", "reshape2", "gemm", "bn", "mmreshape", "gemm2mm", "hardsig", "hsw2", "convaffine", "ccos", "norm"]
 
 def handle (args : List String) : String :=
   match args with
